@@ -1,3 +1,129 @@
-From GolemV Require Import Evo.Loop.
-Theorem placeholder : True. Proof. exact I. Qed.
-Print Assumptions placeholder.
+(* C01 - The optimiser returns the best solutions it recorded.
+   Statements only.  Model: Evo/Loop.v (loop bookkeeping) over Archive/*.v (C08) and
+   Evo/History.v (C06); proofs: Evo/LoopProofs.v.
+
+   The loop is modelled for ALL optimiser classes at once: `pops` is the list of (label,
+   population) pairs handed to _update_population before the final one - an oracle standing for
+   every genetic scheme, operator set, stop criterion and seed.  `shown multi seen` are the
+   hypotheses of C08 on what an archive is shown (valid fitness values of one class, pairwise
+   identical or clearly separated; single-objective: one fitness per uid). *)
+From Coq Require Import List Bool Arith QArith.
+From GolemV Require Import Fitness.Fitness Archive.FitOrder Archive.Hof Archive.HofProofs Archive.Pareto Archive.ParetoProofs
+     Evo.History Evo.Loop Evo.LoopProofs.
+Import ListNotations.
+Local Open Scope nat_scope.
+
+(* the graphs returned are exactly the final archive, which is also recorded as the last
+   generation of the history (labelled final choices, numbered after all others) and as the
+   last archive snapshot *)
+Theorem C01_result_is_final_archive : forall multi k pops,
+  shown multi (concat (map snd pops)) ->
+  let r := optimise multi k pops in
+  let final := items (r_arch (loop multi k pops)) in
+  result r = map gclass final /\
+  r_pops r = pops ++ [(LFinal, final)] /\
+  (exists snaps, r_snaps r = snaps ++ [final] /\ length snaps = length pops) /\
+  gens (r_hist r) = gens (r_hist (loop multi k pops)) ++
+                    [{| g_num := length pops; g_label := LFinal; g_members := map uid final |}].
+Proof. exact result_is_final_archive. Qed.
+Print Assumptions C01_result_is_final_archive.
+
+(* the final update with the archive's own members leaves the archive as it was *)
+Theorem C01_final_update_noop : forall multi k pops,
+  shown multi (concat (map snd pops)) ->
+  r_arch (optimise multi k pops) = r_arch (loop multi k pops).
+Proof. exact final_noop. Qed.
+Print Assumptions C01_final_update_noop.
+
+(* each returned graph passes the verifier when every recorded population does *)
+Theorem C01_result_verified : forall multi k pops (verified : indiv -> Prop),
+  1 <= k -> shown multi (concat (map snd pops)) ->
+  (forall s, In s (concat (map snd pops)) -> verified s) ->
+  forall m, In m (items (r_arch (optimise multi k pops))) -> verified m.
+Proof. exact result_verified. Qed.
+Print Assumptions C01_result_verified.
+
+(* single-objective mode: at most the requested number of best individuals is returned *)
+Theorem C01_result_size : forall k pops,
+  1 <= k -> shown_ok (concat (map snd pops)) ->
+  length (result (optimise false k pops)) <= k.
+Proof. exact result_size. Qed.
+Print Assumptions C01_result_size.
+
+(* single-objective mode: no individual recorded anywhere in the history has a better fitness
+   than the best returned one *)
+Theorem C01_single_obj_best : forall k pops,
+  1 <= k -> shown_ok (concat (map snd pops)) ->
+  let r := optimise false k pops in
+  forall best rest, items (r_arch r) = best :: rest ->
+  forall s, In s (concat (map snd (r_pops r))) -> f_better (fitness s) (fitness best) = false.
+Proof. exact single_obj_best. Qed.
+Print Assumptions C01_single_obj_best.
+
+(* multi-objective mode: no returned individual is dominated by any recorded individual -
+   as long as the capacity eviction of the Pareto front (5 * keep_n_best members) never fired *)
+Theorem C01_multi_obj_nondominated : forall k pops,
+  shown_multi (concat (map snd pops)) -> no_evict_from k run_init pops = true ->
+  let r := optimise true k pops in
+  forall m, In m (items (r_arch r)) ->
+  forall s, In s (concat (map snd (r_pops r))) -> f_dom (fitness s) (fitness m) = false.
+Proof. exact multi_obj_nondominated. Qed.
+Print Assumptions C01_multi_obj_nondominated.
+
+(* C06 clauses about the loop: one archive snapshot per generation ... *)
+Theorem C01_one_snapshot_per_generation : forall multi k pops,
+  length (r_snaps (loop multi k pops)) = length pops /\
+  length (gens (r_hist (loop multi k pops))) = length pops.
+Proof. exact loop_one_snapshot_per_generation. Qed.
+Print Assumptions C01_one_snapshot_per_generation.
+
+(* ... whose members all occur in that or an earlier generation *)
+Theorem C01_snapshots : forall multi k pre c post,
+  1 <= k -> shown multi (concat (map snd (pre ++ [c]))) ->
+  exists s, nth_error (r_snaps (loop multi k (pre ++ c :: post))) (length pre) = Some s /\
+            incl s (concat (map snd (pre ++ [c]))).
+Proof. exact snapshot_members_seen. Qed.
+Print Assumptions C01_snapshots.
+
+(* the history kept by the loop is the history model of C06 run on the recorded uids *)
+Theorem C01_history_is_C06_model : forall multi k pops,
+  r_hist (loop multi k pops) = run_history (map (fun c => (fst c, map uid (snd c))) pops).
+Proof. exact loop_history. Qed.
+Print Assumptions C01_history_is_C06_model.
+
+(* ---- non-vacuity ---- *)
+Definition mk1 (u : nat) (v : Q) (g : nat) := {| uid := u; fitness := Single (Some v) []; gclass := g; ngen := None |}.
+Definition ex_pops1 : list (label * list indiv) :=
+  [(LInitial, [mk1 1 3 0; mk1 2 2 1]); (LNone, [mk1 3 2 2; mk1 2 2 1; mk1 4 1 3]); (LNone, [mk1 5 1 4; mk1 4 1 3])].
+
+Example single_hypotheses_satisfiable :
+  shown_ok (concat (map snd ex_pops1)) /\
+  map uid (items (r_arch (optimise false 2 ex_pops1))) = [5; 4] /\
+  result (optimise false 2 ex_pops1) = [4; 3] /\
+  map (map uid) (r_snaps (optimise false 2 ex_pops1)) = [[2; 1]; [4; 3]; [5; 4]; [5; 4]].
+Proof.
+  split.
+  - split.
+    + apply sepu_b_correct. vm_compute. reflexivity.
+    + intros s t Hs Ht E. simpl in Hs, Ht.
+      repeat (destruct Hs as [<-|Hs]; [repeat (destruct Ht as [<-|Ht]; [try reflexivity; discriminate E|]); destruct Ht|]).
+      destruct Hs.
+  - vm_compute. repeat split.
+Qed.
+
+Definition mk2 (u : nat) (a b : Q) (g : nat) := {| uid := u; fitness := Multi [a; b] [1%Q; 1%Q]; gclass := g; ngen := None |}.
+Definition ex_pops2 : list (label * list indiv) :=
+  [(LInitial, [mk2 1 0 2 0; mk2 2 1 1 0]); (LNone, [mk2 3 2 2 0; mk2 4 2 0 0]); (LNone, [mk2 5 1 1 1; mk2 6 1 0 0])].
+
+Example multi_hypotheses_satisfiable :
+  shown_multi (concat (map snd ex_pops2)) /\ no_evict_from 1 run_init ex_pops2 = true /\
+  map uid (items (r_arch (optimise true 1 ex_pops2))) = [1; 6] /\
+  (* with a tiny capacity the eviction fires and the guard of the theorem is false *)
+  no_evict_from 1 run_init (ex_pops2 ++ [(LNone, [mk2 7 3 (-1) 0; mk2 8 4 (-2) 0; mk2 9 5 (-3) 0; mk2 10 6 (-4) 0])]) = false.
+Proof.
+  split.
+  - split.
+    + apply sepu_b_correct. vm_compute. reflexivity.
+    + intros f Hf. simpl in Hf. repeat (destruct Hf as [<-|Hf]; [eexists; eexists; reflexivity|]). destruct Hf.
+  - vm_compute. repeat split.
+Qed.
